@@ -23,7 +23,7 @@ import (
 
 type FaultSpec struct {
 	Call int    `json:"call"` // position in the call trace (0-based)
-	Mode string `json:"mode"` // before | after (after J elements) | fail (non-streaming call)
+	Mode string `json:"mode"` // before | after (after J elements) | fail (non-streaming call) | cancel (the caller's context is cancelled when the call starts / after J elements; the call itself does not fail unless the driver is context aware)
 	J    int    `json:"j,omitempty"`
 }
 
@@ -42,6 +42,11 @@ type simStoreCfg struct {
 	Permute bool // permute unpaged emissions
 	Pace    int  // 0: deliver without yielding; 1: a scheduling point before every element; 2: before some (tape)
 	Faults  []FaultSpec
+	// CtxAware: the driver honours its context the way a remote driver does - a call that finds the context done
+	// returns ctx.Err() (before delivering anything, or between two elements). The in-memory driver never does.
+	CtxAware bool
+	// Cancel cancels the caller's context (fault mode "cancel": the client goes away while call k is in flight).
+	Cancel context.CancelFunc
 }
 
 type simStore struct {
@@ -51,6 +56,7 @@ type simStore struct {
 	trace []*callRec
 	fired map[string]int
 	armedAt int
+	failed  int // calls that returned an error to the engine (injected, or ctx.Err() of a context aware driver)
 }
 
 var errInjected = errors.New("simstore: injected storage driver failure")
@@ -61,7 +67,7 @@ func newSimStore(inner storage.Store, cfg simStoreCfg) *simStore {
 
 // begin records a call, yields to the scheduler and returns the fault (if any)
 // planned for this position.
-func (s *simStore) begin(method, desc string, stream, write bool) (*callRec, *FaultSpec) {
+func (s *simStore) begin(ctx context.Context, method, desc string, stream, write bool) (*callRec, *FaultSpec, error) {
 	s.mu.Lock()
 	rec := &callRec{Idx: len(s.trace), Method: method, Desc: desc, Stream: stream, Write: write}
 	s.trace = append(s.trace, rec)
@@ -73,7 +79,38 @@ func (s *simStore) begin(method, desc string, stream, write bool) (*callRec, *Fa
 	}
 	s.mu.Unlock()
 	sim.Point(-20)
-	return rec, f
+	if f != nil && f.Mode == "cancel" {
+		if f.J == 0 || !stream {
+			s.cancelNow(rec)
+			f = nil
+		}
+	}
+	if err := s.ctxErr(ctx, rec); err != nil {
+		return rec, nil, err
+	}
+	return rec, f, nil
+}
+
+func (s *simStore) cancelNow(rec *callRec) {
+	if s.cfg.Cancel != nil {
+		s.cfg.Cancel()
+		s.mu.Lock()
+		s.fired["caller_cancel"]++
+		s.mu.Unlock()
+	}
+}
+
+// ctxErr: what a context aware driver returns when it notices that its context is done.
+func (s *simStore) ctxErr(ctx context.Context, rec *callRec) error {
+	if !s.cfg.CtxAware || ctx.Err() == nil {
+		return nil
+	}
+	s.mu.Lock()
+	rec.Faulted = "ctx"
+	s.fired["ctx_err_returned_by_driver"]++
+	s.failed++
+	s.mu.Unlock()
+	return ctx.Err()
 }
 
 // arm makes the next driver call (whatever its position) fail as f says; disarm removes the plan and reports
@@ -97,6 +134,7 @@ func (s *simStore) fire(rec *callRec, kind string) {
 	s.mu.Lock()
 	rec.Faulted = kind
 	s.fired[kind]++
+	s.failed++
 	s.mu.Unlock()
 }
 
@@ -117,7 +155,10 @@ func (s *simStore) Name(ctx context.Context) string    { return "SIMSTORE(" + s.
 func (s *simStore) Version(ctx context.Context) string { return s.inner.Version(ctx) }
 
 func (s *simStore) NewGraph(ctx context.Context, id string) (storage.Graph, error) {
-	rec, f := s.begin("NewGraph", id, false, true)
+	rec, f, cerr := s.begin(ctx, "NewGraph", id, false, true)
+	if cerr != nil {
+		return nil, cerr
+	}
 	if f != nil {
 		s.fire(rec, "err_on_newgraph")
 		return nil, errInjected
@@ -130,7 +171,10 @@ func (s *simStore) NewGraph(ctx context.Context, id string) (storage.Graph, erro
 }
 
 func (s *simStore) Graph(ctx context.Context, id string) (storage.Graph, error) {
-	rec, f := s.begin("Graph", id, false, false)
+	rec, f, cerr := s.begin(ctx, "Graph", id, false, false)
+	if cerr != nil {
+		return nil, cerr
+	}
 	if f != nil {
 		s.fire(rec, "err_on_graph_open")
 		return nil, errInjected
@@ -143,7 +187,10 @@ func (s *simStore) Graph(ctx context.Context, id string) (storage.Graph, error) 
 }
 
 func (s *simStore) DeleteGraph(ctx context.Context, id string) error {
-	rec, f := s.begin("DeleteGraph", id, false, true)
+	rec, f, cerr := s.begin(ctx, "DeleteGraph", id, false, true)
+	if cerr != nil {
+		return cerr
+	}
 	if f != nil {
 		s.fire(rec, "err_on_deletegraph")
 		return errInjected
@@ -152,7 +199,11 @@ func (s *simStore) DeleteGraph(ctx context.Context, id string) error {
 }
 
 func (s *simStore) GraphNames(ctx context.Context, names chan<- string) error {
-	rec, f := s.begin("GraphNames", "", true, false)
+	rec, f, cerr := s.begin(ctx, "GraphNames", "", true, false)
+	if cerr != nil {
+		close(names)
+		return cerr
+	}
 	ch := make(chan string, 1<<12)
 	if err := s.inner.GraphNames(ctx, ch); err != nil {
 		close(names)
@@ -162,12 +213,12 @@ func (s *simStore) GraphNames(ctx context.Context, names chan<- string) error {
 	for n := range ch {
 		all = append(all, n)
 	}
-	return deliver(s, rec, f, all, names, true)
+	return deliver(ctx, s, rec, f, all, names, true)
 }
 
 // deliver streams els to out honouring pace, permutation and the fault plan,
 // closes out and returns the call's error.
-func deliver[T any](s *simStore, rec *callRec, f *FaultSpec, els []T, out chan<- T, mayPermute bool) error {
+func deliver[T any](ctx context.Context, s *simStore, rec *callRec, f *FaultSpec, els []T, out chan<- T, mayPermute bool) error {
 	defer close(out)
 	rec.Available = len(els)
 	if f != nil && f.Mode == "before" {
@@ -199,8 +250,26 @@ func deliver[T any](s *simStore, rec *callRec, f *FaultSpec, els []T, out chan<-
 		if pause[i] {
 			sim.Point(-21)
 		}
-		out <- e
+		if f != nil && f.Mode == "cancel" && i == f.J {
+			s.cancelNow(rec)
+		}
+		if err := s.ctxErr(ctx, rec); err != nil {
+			return err
+		}
+		if s.cfg.CtxAware {
+			// a context aware driver does not stay blocked on a consumer that went away with the context
+			select {
+			case out <- e:
+			case <-ctx.Done():
+				return s.ctxErr(ctx, rec)
+			}
+		} else {
+			out <- e
+		}
 		rec.Delivered++
+	}
+	if f != nil && f.Mode == "cancel" && f.J >= len(els) {
+		s.cancelNow(rec) // the client goes away just as the call completes: the call itself succeeded
 	}
 	if f != nil && f.Mode == "after" {
 		// fewer elements than J: fail at the end of the stream
@@ -219,7 +288,10 @@ type simGraph struct {
 func (g *simGraph) ID(ctx context.Context) string { return g.g.ID(ctx) }
 
 func (g *simGraph) AddTriples(ctx context.Context, ts []*triple.Triple) error {
-	rec, f := g.s.begin("AddTriples", fmt.Sprintf("%s n=%d", g.id, len(ts)), false, true)
+	rec, f, cerr := g.s.begin(ctx, "AddTriples", fmt.Sprintf("%s n=%d", g.id, len(ts)), false, true)
+	if cerr != nil {
+		return cerr
+	}
 	if f != nil {
 		g.s.fire(rec, "err_on_write")
 		return errInjected
@@ -228,7 +300,10 @@ func (g *simGraph) AddTriples(ctx context.Context, ts []*triple.Triple) error {
 }
 
 func (g *simGraph) RemoveTriples(ctx context.Context, ts []*triple.Triple) error {
-	rec, f := g.s.begin("RemoveTriples", fmt.Sprintf("%s n=%d", g.id, len(ts)), false, true)
+	rec, f, cerr := g.s.begin(ctx, "RemoveTriples", fmt.Sprintf("%s n=%d", g.id, len(ts)), false, true)
+	if cerr != nil {
+		return cerr
+	}
 	if f != nil {
 		g.s.fire(rec, "err_on_write")
 		return errInjected
@@ -237,7 +312,10 @@ func (g *simGraph) RemoveTriples(ctx context.Context, ts []*triple.Triple) error
 }
 
 func (g *simGraph) Exist(ctx context.Context, t *triple.Triple) (bool, error) {
-	rec, f := g.s.begin("Exist", g.id+" "+t.String(), false, false)
+	rec, f, cerr := g.s.begin(ctx, "Exist", g.id+" "+t.String(), false, false)
+	if cerr != nil {
+		return false, cerr
+	}
 	if f != nil {
 		g.s.fire(rec, "err_on_exist")
 		return false, errInjected
@@ -257,62 +335,66 @@ func collect[T any](call func(chan T) error) ([]T, error) {
 	return out, nil
 }
 
-func stream[T any](g *simGraph, method, desc string, lo *storage.LookupOptions, out chan<- T, call func(chan T) error) error {
-	rec, f := g.s.begin(method, g.id+" "+desc+" "+lo.String(), true, false)
+func stream[T any](ctx context.Context, g *simGraph, method, desc string, lo *storage.LookupOptions, out chan<- T, call func(chan T) error) error {
+	rec, f, cerr := g.s.begin(ctx, method, g.id+" "+desc+" "+lo.String(), true, false)
+	if cerr != nil {
+		close(out)
+		return cerr
+	}
 	els, err := collect(call)
 	if err != nil {
 		close(out)
 		return err
 	}
-	return deliver(g.s, rec, f, els, out, lo.MaxElements == 0)
+	return deliver(ctx, g.s, rec, f, els, out, lo.MaxElements == 0)
 }
 
 func (g *simGraph) Objects(ctx context.Context, s *node.Node, p *predicate.Predicate, lo *storage.LookupOptions, objs chan<- *triple.Object) error {
-	return stream(g, "Objects", s.String()+" "+p.String(), lo, objs, func(c chan *triple.Object) error { return g.g.Objects(ctx, s, p, lo, c) })
+	return stream(ctx, g, "Objects", s.String()+" "+p.String(), lo, objs, func(c chan *triple.Object) error { return g.g.Objects(ctx, s, p, lo, c) })
 }
 
 func (g *simGraph) Subjects(ctx context.Context, p *predicate.Predicate, o *triple.Object, lo *storage.LookupOptions, subs chan<- *node.Node) error {
-	return stream(g, "Subjects", p.String()+" "+o.String(), lo, subs, func(c chan *node.Node) error { return g.g.Subjects(ctx, p, o, lo, c) })
+	return stream(ctx, g, "Subjects", p.String()+" "+o.String(), lo, subs, func(c chan *node.Node) error { return g.g.Subjects(ctx, p, o, lo, c) })
 }
 
 func (g *simGraph) PredicatesForSubject(ctx context.Context, s *node.Node, lo *storage.LookupOptions, prds chan<- *predicate.Predicate) error {
-	return stream(g, "PredicatesForSubject", s.String(), lo, prds, func(c chan *predicate.Predicate) error { return g.g.PredicatesForSubject(ctx, s, lo, c) })
+	return stream(ctx, g, "PredicatesForSubject", s.String(), lo, prds, func(c chan *predicate.Predicate) error { return g.g.PredicatesForSubject(ctx, s, lo, c) })
 }
 
 func (g *simGraph) PredicatesForObject(ctx context.Context, o *triple.Object, lo *storage.LookupOptions, prds chan<- *predicate.Predicate) error {
-	return stream(g, "PredicatesForObject", o.String(), lo, prds, func(c chan *predicate.Predicate) error { return g.g.PredicatesForObject(ctx, o, lo, c) })
+	return stream(ctx, g, "PredicatesForObject", o.String(), lo, prds, func(c chan *predicate.Predicate) error { return g.g.PredicatesForObject(ctx, o, lo, c) })
 }
 
 func (g *simGraph) PredicatesForSubjectAndObject(ctx context.Context, s *node.Node, o *triple.Object, lo *storage.LookupOptions, prds chan<- *predicate.Predicate) error {
-	return stream(g, "PredicatesForSubjectAndObject", s.String()+" "+o.String(), lo, prds, func(c chan *predicate.Predicate) error {
+	return stream(ctx, g, "PredicatesForSubjectAndObject", s.String()+" "+o.String(), lo, prds, func(c chan *predicate.Predicate) error {
 		return g.g.PredicatesForSubjectAndObject(ctx, s, o, lo, c)
 	})
 }
 
 func (g *simGraph) TriplesForSubject(ctx context.Context, s *node.Node, lo *storage.LookupOptions, trpls chan<- *triple.Triple) error {
-	return stream(g, "TriplesForSubject", s.String(), lo, trpls, func(c chan *triple.Triple) error { return g.g.TriplesForSubject(ctx, s, lo, c) })
+	return stream(ctx, g, "TriplesForSubject", s.String(), lo, trpls, func(c chan *triple.Triple) error { return g.g.TriplesForSubject(ctx, s, lo, c) })
 }
 
 func (g *simGraph) TriplesForPredicate(ctx context.Context, p *predicate.Predicate, lo *storage.LookupOptions, trpls chan<- *triple.Triple) error {
-	return stream(g, "TriplesForPredicate", p.String(), lo, trpls, func(c chan *triple.Triple) error { return g.g.TriplesForPredicate(ctx, p, lo, c) })
+	return stream(ctx, g, "TriplesForPredicate", p.String(), lo, trpls, func(c chan *triple.Triple) error { return g.g.TriplesForPredicate(ctx, p, lo, c) })
 }
 
 func (g *simGraph) TriplesForObject(ctx context.Context, o *triple.Object, lo *storage.LookupOptions, trpls chan<- *triple.Triple) error {
-	return stream(g, "TriplesForObject", o.String(), lo, trpls, func(c chan *triple.Triple) error { return g.g.TriplesForObject(ctx, o, lo, c) })
+	return stream(ctx, g, "TriplesForObject", o.String(), lo, trpls, func(c chan *triple.Triple) error { return g.g.TriplesForObject(ctx, o, lo, c) })
 }
 
 func (g *simGraph) TriplesForSubjectAndPredicate(ctx context.Context, s *node.Node, p *predicate.Predicate, lo *storage.LookupOptions, trpls chan<- *triple.Triple) error {
-	return stream(g, "TriplesForSubjectAndPredicate", s.String()+" "+p.String(), lo, trpls, func(c chan *triple.Triple) error {
+	return stream(ctx, g, "TriplesForSubjectAndPredicate", s.String()+" "+p.String(), lo, trpls, func(c chan *triple.Triple) error {
 		return g.g.TriplesForSubjectAndPredicate(ctx, s, p, lo, c)
 	})
 }
 
 func (g *simGraph) TriplesForPredicateAndObject(ctx context.Context, p *predicate.Predicate, o *triple.Object, lo *storage.LookupOptions, trpls chan<- *triple.Triple) error {
-	return stream(g, "TriplesForPredicateAndObject", p.String()+" "+o.String(), lo, trpls, func(c chan *triple.Triple) error {
+	return stream(ctx, g, "TriplesForPredicateAndObject", p.String()+" "+o.String(), lo, trpls, func(c chan *triple.Triple) error {
 		return g.g.TriplesForPredicateAndObject(ctx, p, o, lo, c)
 	})
 }
 
 func (g *simGraph) Triples(ctx context.Context, lo *storage.LookupOptions, trpls chan<- *triple.Triple) error {
-	return stream(g, "Triples", "", lo, trpls, func(c chan *triple.Triple) error { return g.g.Triples(ctx, lo, c) })
+	return stream(ctx, g, "Triples", "", lo, trpls, func(c chan *triple.Triple) error { return g.g.Triples(ctx, lo, c) })
 }
